@@ -289,6 +289,8 @@ class History:
         self.last_dump = {}
         self.against = {}           # register -> registers it must be compared with
         self.prefix_pairs = 0       # compared pairs whose child lists are a proper prefix of each other
+        self.inner_cache_scenarios = 0
+        self.scenario = False
         self.stale_hash_seqs = 0    # structural_hash() on host, then replace_path(retain_id=True), then hash compared
 
     # ---- observations on register k
@@ -419,13 +421,24 @@ class History:
         k = self.rng.randrange(len(self.R)) if k is None else k
         t = self.R[k]
         self.record(f"OIsOpen {k}", f"is_open(R{k})", lambda: bool(t.is_open()), dump=True)
+        # open_iff_leaf on the CACHED answer: is_open() <-> some open leaf (plain recursion), and
+        # is_complete() / open_leaves() agree with it
+        has_open = any(n.children is None for _, n in direct_nodes(t))
+        ans = bool(t.is_open())
+        if ans != has_open or t.is_complete() == has_open or bool(list(t.open_leaves())) != has_open:
+            self.specbad.append(("open_iff_leaf(cached answer)", None,
+                                 {"impl_is_open": ans, "spec": has_open, "tree": tree_json(t), "reg": k,
+                                  "open_leaves": [list(p) for p, _ in t.open_leaves()][:5]}))
 
-    def op_replace(self):
+    def op_replace(self, src=None, p=None, rep=None, retain=None):
         rng = self.rng
-        src, rep = rng.randrange(len(self.R)), rng.randrange(len(self.R))
+        if src is None:
+            src, rep = rng.randrange(len(self.R)), rng.randrange(len(self.R))
         t, r = self.R[src], self.R[rep]
-        p = rand_valid_path(rng, t, nonroot=True) if rng.random() < 0.85 else rand_any_path(rng, t)
-        retain = rng.random() < 0.4
+        if p is None:
+            p = rand_valid_path(rng, t, nonroot=True) if rng.random() < 0.85 else rand_any_path(rng, t)
+        if retain is None:
+            retain = rng.random() < 0.4
         kind = self.record(f"OReplace {src} {g_path(p)} {rep} {g_bool(retain)}",
                            f"replace_path(R{src},{p},R{rep},retain_id={retain})",
                            lambda: [t.replace_path(p, r, retain_id=retain)], dump=retain)
@@ -436,6 +449,10 @@ class History:
                 self.deep_replace = True
             for s, cls, d in spec_replace_frame(t, p, r, self.R[-1], retain):
                 self.specbad.append((s, cls, dict(d, tree=tree_json(t), p=list(p), repl=tree_json(r))))
+            # cached answer of the ROOT of the result right after the replacement (the slots of all
+            # ancestors are compared with a recomputation by spec_violations/cache_inv in observe)
+            if rng.random() < 0.6:
+                self.op_is_open(len(self.R) - 1)
 
     def op_subst(self):
         rng = self.rng
@@ -480,21 +497,74 @@ class History:
         self.record(f"OExpand {src} {g_grammar(g)} {nid}%N", f"expand_one_step(R{src})",
                     lambda: list(t.expand_one_step(g)))
 
-    def op_get(self):
-        src = self.rng.randrange(len(self.R))
+    def op_get(self, src=None, p=None):
+        if src is None:
+            src = self.rng.randrange(len(self.R))
         t = self.R[src]
-        p = rand_valid_path(self.rng, t, nonroot=True)
+        if p is None:
+            p = rand_valid_path(self.rng, t, nonroot=True)
         self.record(f"OGet {src} {g_path(p)}", f"get_subtree(R{src},{p}) as register",
                     lambda: [node_at(t, p)])
 
+    def scenario_inner_cache(self):
+        """directed shape (seeded change C16-r2-2): is_open() is asked of INNER CLOSED nodes (aliases obtained
+        with get_subtree) BEFORE a replace_path at depth >= 2 below them by a closed tree, while an open leaf
+        sits in a sibling branch of an ancestor; then the cached answer of the result's root is asked"""
+        rng = self.rng
+
+        def closed(d):
+            if d <= 0:
+                return T(rng.choice(TERMS), [])
+            return T(rng.choice(NTS), [closed(d - 1 if i == 0 else rng.randint(0, d - 1)) for i in range(rng.randint(1, 3))])
+
+        def with_open(d):
+            if d <= 0:
+                return T(rng.choice(NTS), None)
+            ks = [closed(rng.randint(0, 1)) for _ in range(rng.randint(0, 2))]
+            ks.insert(rng.randint(0, len(ks)), with_open(d - 1))
+            return T(rng.choice(NTS), ks)
+        depth = rng.randint(2, 3)                       # closed branch of depth >= 2
+        a = closed(depth)
+        branches = [closed(rng.randint(0, 1)) for _ in range(rng.randint(0, 2))] + [with_open(rng.randint(0, 2))]
+        rng.shuffle(branches)
+        ia = rng.randint(0, len(branches))
+        branches.insert(ia, a)
+        host = T(rng.choice(NTS), branches)
+        if rng.random() < 0.4:                          # one more level above: the open leaf hangs off a higher ancestor
+            host = T(rng.choice(NTS), [host, with_open(rng.randint(0, 1))])
+            pa = (0, ia)
+        else:
+            pa = (ia,)
+        self.record(f"OConstruct {g_tree(host)}", "construct()", lambda: [host])
+        h = len(self.R) - 1
+        # path from a down its first children to a leaf (length >= 2 below a)
+        below, n = (), a
+        while n.children:
+            below += (0,); n = n.children[0]
+        # ask is_open() of inner closed nodes on that path (always the direct parent of the replaced node)
+        asked = {len(below) - 1} | {i for i in range(len(below)) if rng.random() < 0.6}
+        for i in sorted(asked, reverse=rng.random() < 0.5):
+            self.op_get(h, pa + below[:i])
+            self.op_is_open(len(self.R) - 1)
+        r = closed(rng.randint(0, 2))
+        self.record(f"OConstruct {g_tree(r)}", "construct()", lambda: [r])
+        self.inner_cache_scenarios += 1
+        self.op_replace(h, pa + below, len(self.R) - 1, rng.random() < 0.3)
+        if self.labels[-1][0].startswith("replace_path"):
+            self.op_is_open(len(self.R) - 1)
+
     def generate(self):
         rng = self.rng
+        if self.scenario:
+            self.scenario_inner_cache()
         self.op_construct()
         self.op_construct()
-        n = rng.randint(4, self.max_ops)
-        while len(self.steps) < n and len(self.R) < 14:
+        n = len(self.steps) - 2 + rng.randint(4, self.max_ops)
+        while len(self.steps) < n and len(self.R) < (18 if self.scenario else 14):
             r = rng.random()
-            if r < 0.10:
+            if r < 0.04 and len(self.R) < 8:
+                self.scenario_inner_cache()
+            elif r < 0.10:
                 self.op_construct()
             elif r < 0.40:
                 self.op_replace()
@@ -600,6 +670,7 @@ def run(run):
     T.next_id = max(T.next_id, 1)
     for ci in range(ncases):
         h = History(random.Random(rng.getrandbits(48)), run, fixed_root, max_ops, wide=(ci % 3 == 0))
+        h.scenario = (ci % 3 == 1)
         h.generate()
         hs.append(h)
         run.count(("hist", ci, tuple(h.kinds)), h.deep_replace)
@@ -610,6 +681,7 @@ def run(run):
                         "first_tree": tree_json(h.R[0]) if len(h.R[0].paths()) < 40 else "<large>"})
     run.cov["seconds_generate_and_run_impl"] = round(time.time() - t0, 1)
     run.cov["op_histogram"] = hist
+    run.cov["inner_closed_is_open_then_deep_replace_scenarios"] = sum(h.inner_cache_scenarios for h in hs)
     run.cov["prefix_child_list_pairs_compared"] = sum(h.prefix_pairs for h in hs)
     run.cov["hash_then_retain_replace_then_hash_sequences"] = sum(h.stale_hash_seqs for h in hs)
     lab = {}
